@@ -9,7 +9,7 @@ from __future__ import annotations
 import numpy as np
 
 VIAS = ["ctor", "ctor", "ctor", "swap_warm", "swap_fresh", "swap2", "from_labels", "queried_before", "queried_before",
-        "sample_replacement", "sample_smoothing", "sample_single_pass", "sample_swap"]
+        "sample_replacement", "sample_smoothing", "sample_single_pass", "sample_swap", "replaced"]
 FLIP = {"pos": "neg", "neg": "pos"}
 _THR = ["tpr", "fnr", "tnr", "fpr", "topr", "tonr"]
 
@@ -66,6 +66,18 @@ def build(pos, neg, ep, en, sc, ec, via, seed=0):
         method = "single_pass" if via == "sample_single_pass" else "replacement"
         b = src.bootstrap_sample(BootstrapConfig(sampling_method=method, smoothing=smoothing, stratified_sampling="by_label" if seed % 2 else None))
         return b.swap() if via == "sample_swap" else b
+    if via == "replaced":
+        # the object held other scores (other class sizes), answered every kind of query about them, and then had its score arrays
+        # replaced through the public attributes (what the FraudScores setters do); sorted, as the class keeps them
+        from score_analysis import roc
+
+        rs = np.random.default_rng(seed)
+        obj = Scores(rs.normal(0, 1, int(rs.integers(1, 9))), rs.normal(0, 1, int(rs.integers(1, 9))), nb_easy_pos=ep, nb_easy_neg=en, score_class=sc, equal_class=ec)
+        _warm(obj, seed)
+        obj.threshold_at_metric(0.5, "fnr")
+        roc(obj, nb_points=None)
+        obj.pos, obj.neg = np.sort(np.asarray(pos)), np.sort(np.asarray(neg))
+        return obj
     s = Scores(pos, neg, nb_easy_pos=ep, nb_easy_neg=en, score_class=sc, equal_class=ec)
     if via == "queried_before":
         _warm(s, seed)
